@@ -156,6 +156,16 @@ def r3_weibull(ctx):
 NONFINITE = {"float('inf')", 'float("inf")', "float('-inf')", "float('nan')", "math.inf", "np.inf", "numpy.inf", "torch.inf", "np.nan", "math.nan", "torch.nan", "-np.inf", "-math.inf", "-torch.inf"}
 
 
+def _positive_by_construction(e, positives) -> bool:
+    if isinstance(e, ast.Name):
+        return e.id in positives
+    if isinstance(e, ast.BinOp) and isinstance(e.op, (ast.Mult, ast.Div)):
+        return _positive_by_construction(e.left, positives) and _positive_by_construction(e.right, positives)
+    if isinstance(e, ast.Constant) and isinstance(e.value, (int, float)):
+        return e.value > 0
+    return False
+
+
 def r4_finite(ctx):
     ctx.rule("C08.R4", "finite penalty: no non-finite literal, finite INFINITY, guarded log / power", 3)
     ix = ctx.ix
@@ -184,11 +194,18 @@ def r4_finite(ctx):
     if T is None:
         raise AnalysisError("C08.R4", "anchor vanished: the reparametrised event time in compute_log_likelihood_hazard")
     # every torch.log / fractional power applied to a value derived from the reparametrised event time sits on the guarded side of a where(. > 0, ...)
+    positives = {"nu", "rho"}
+    for st in statements(f.node):
+        if isinstance(st, ast.Assign) and isinstance(st.targets[0], ast.Tuple) and isinstance(st.value, ast.Call) and U(st.value.func).endswith("_extract_reparametrized_parameters") \
+                and len(st.targets[0].elts) >= 3:
+            positives.add(U(st.targets[0].elts[2]))  # (event time - tau, indicator, nu~): nu~ = nu * exp(.) > 0
     ok = True
     why = ""
     wheres = [w for w in ast.walk(f.node) if isinstance(w, ast.Call) and U(w.func) == "torch.where" and len(w.args) == 3]
     for c in ast.walk(f.node):
         if isinstance(c, ast.Call) and U(c.func) == "torch.log":
+            if c.args and _positive_by_construction(c.args[0], positives):
+                continue  # products / quotients of the positive Weibull parameters
             guarded = any(any(x is c for x in ast.walk(w.args[1])) and U(w.args[0]) == f"{U(c.args[0])} > 0" for w in wheres)
             if not guarded:
                 ok, why = False, f"`{U(c)}` is not on the guarded side of where(. > 0, ...)"
